@@ -130,6 +130,12 @@ func classify(n *walkNode) (string, bool) {
 // exempts a shared node (with everything below it) from `runs:clone-shares`, it does not exempt it from
 // the content comparison.  A node of the shared part whose content changed during Run() / Anneal() is
 // admissible only if every access to it is inside a lock-guarded section:
+var (
+	saverFieldsRe     = regexp.MustCompile(`^(\.[A-Za-z_]\w*)+$`)
+	saverModelTypeRe  = regexp.MustCompile(`^\*\w+\.Model$`)
+	saverModelBelowRe = regexp.MustCompile(`^(\.[A-Za-z_]\w*)+\(\*\w+\.Model\)`)
+)
+
 var writtenRules = []struct {
 	class, reason string
 	match         func(path, typ string) bool
@@ -137,8 +143,15 @@ var writtenRules = []struct {
 	{"harness", "the suite's own recording observer / fault wrapper (locks itself)", func(p, t string) bool {
 		return strings.Contains(p, "(*main.") || strings.HasPrefix(t, "*main.") || strings.HasPrefix(t, "main.")
 	}},
-	{"saver-locked", "scenario.Saver.decompressionModel and everything below it: only touched between decompressionMutex.Lock() and Unlock() (Saver.go derive*Solution*)",
-		func(p, t string) bool { return strings.Contains(p, "(*scenario.Saver).decompressionModel") }},
+	{"saver-locked", "the model that the one Saver of a scenario decompresses solutions into (scenario.Saver.decompressionModel in the pinned code), and everything below it: only touched under the Saver's mutex (Saver.go derive*Solution*).  Recognised by what it is - a model reached from the Saver through plain fields - not by the field's name",
+		func(p, t string) bool {
+			i := strings.LastIndex(p, "(*scenario.Saver)")
+			if i < 0 {
+				return false
+			}
+			rest := p[i+len("(*scenario.Saver)"):]
+			return (saverFieldsRe.MatchString(rest) && saverModelTypeRe.MatchString(t)) || saverModelBelowRe.MatchString(rest)
+		}},
 	{"logger-locked", "log destinations: written through log.Logger / os.File, which lock internally", func(p, t string) bool {
 		return strings.Contains(p, "(*log.Logger)") || strings.Contains(p, "(*os.File)") || strings.Contains(p, "(*os.file)") || strings.HasPrefix(t, "*log.Logger") || t == "*os.file" || t == "*os.File"
 	}},
